@@ -46,7 +46,7 @@ Import ListNotations.
 Inductive result (A : Type) : Type :=
 | Ok (a : A)
 | OOB (site index size : nat)     (* an access index >= size at the given site *)
-| SolveFail (sample : nat).       (* the local linear system is singular *)
+| SolveFail (sample : nat).       (* the local problem of this sample is singular / degenerate *)
 Arguments Ok {A} a.
 Arguments OOB {A} site index size.
 Arguments SolveFail {A} sample.
@@ -77,6 +77,13 @@ Section LleModel.
     | [] => 0
     | t :: rest => trip_at r c t + from_triplets rest r c
     end.
+
+  (* the same sum, visiting only the triplets that hit (r,c): what is executed
+     (Lle_Proof_Triplets.from_triplets_fast_ok) *)
+  Definition trip_hits (r c : nat) (t : triplet) : bool :=
+    let '(i, j, _) := t in (Nat.eqb i r && Nat.eqb j c)%bool.
+  Definition from_triplets_fast (ts : list triplet) (r c : nat) : F :=
+    fold_left (fun acc t => acc + snd t) (filter (trip_hits r c) ts) 0.
 
   Definition triplet_in_range (m n : nat) (t : triplet) : bool :=
     let '(i, j, _) := t in (Nat.ltb i m && Nat.ltb j n)%bool.
@@ -325,29 +332,59 @@ Section LleModel.
 
   (* ---- the same local matrix without square roots (what is executed over Qc):
          u_c = unnormalised orthogonalised columns, H H^T = sum_c u_c u_c^T / (u_c . u_c);
-         Lle_Proof_Gs.hlle_local_sqrt_free proves it equal to hlle_local under the
-         contracts of sqrtf and gt_thr ---- *)
-  Definition mgs_orth_sf (k : nat) (U : list vec) (v : vec) : vec :=
-    fold_left (fun v u => let r := dot k v u / dot k u u in memo_vec k (fun a => v a - r * u a)) U v.
+         every u is stored with its squared norm u.u (computed once);
+         Lle_Proof_Gs proves orthogonality / the annihilation of 1 and of the tangent
+         coordinates, and the equality with hlle_local under the contracts of sqrtf and
+         gt_thr ---- *)
+  Definition mgs_orth_sf (k : nat) (U : list (vec * F)) (v : vec) : vec :=
+    fold_left (fun v un => let r := dot k v (fst un) / snd un in
+                           memo_vec k (fun a => v a - r * fst un a)) U v.
 
-  Fixpoint mgs_sf (k : nat) (U cols : list vec) : list vec :=
+  Fixpoint mgs_sf (k : nat) (U : list (vec * F)) (cols : list vec) : list (vec * F) :=
     match cols with
     | [] => U
-    | v :: rest => mgs_sf k (U ++ [mgs_orth_sf k U v]) rest
+    | v :: rest => let u := mgs_orth_sf k U v in mgs_sf k (U ++ [(u, dot k u u)]) rest
     end.
 
-  Definition outer_sum_sf (k : nat) (U : list vec) : mat :=
-    fun a b => fold_right (fun u acc => u a * u b / dot k u u + acc) 0 U.
+  Definition outer_sum_sf (U : list (vec * F)) : mat :=
+    fun a b => fold_right (fun un acc => fst un a * fst un b / snd un + acc) 0 U.
+
+  (* all Gram-Schmidt columns of one neighbourhood, with their squared norms *)
+  Definition hlle_gs_sf (shipped : bool) (k d : nat) (prev V : mat) : list (vec * F) :=
+    mgs_sf k [] (cols_of k (hlle_ncols d) (hlle_Yprod shipped d prev V)).
+
+  Definition hlle_local_of (d : nat) (U : list (vec * F)) : mat :=
+    outer_sum_sf (skipn (1 + d) U).
 
   Definition hlle_local_sf (shipped : bool) (k d : nat) (prev V : mat) : mat :=
-    let Y := hlle_Yprod shipped d prev V in
-    let U := mgs_sf k [] (cols_of k (hlle_ncols d) Y) in
-    outer_sum_sf k (skipn (1 + d) U).
+    hlle_local_of d (hlle_gs_sf shipped k d prev V).
 
-  Definition hlle_model_sf (shipped : bool) (N k d : nat) (nbr : nat -> nat -> nat)
-             (V prev : nat -> mat) : list triplet :=
-    hlle_triplets (seq 0 N) k nbr
-      (fun i => mof (mtab k k (hlle_local_sf shipped k d (prev i) (V i)))).
+  (* some column has squared norm 0: the C++ divides by a norm that is 0 up to rounding *)
+  Definition gs_degenerate (fz : F -> bool) (U : list (vec * F)) : bool :=
+    existsb (fun un => fz (snd un)) U.
+
+  (* local matrices (k x k tables) of samples 0 .. n-1, or the first degenerate sample *)
+  Fixpoint hlle_all_locals (fz : F -> bool) (shipped : bool) (k d : nat) (V prev : nat -> mat) (n : nat)
+    : result (list (list (list F))) :=
+    match n with
+    | O => Ok []
+    | S n' =>
+        match hlle_all_locals fz shipped k d V prev n' with
+        | Ok Ps =>
+            let U := hlle_gs_sf shipped k d (prev n') (V n') in
+            if gs_degenerate fz U then SolveFail n'
+            else Ok (Ps ++ [mtab k k (hlle_local_of d U)])
+        | e => e
+        end
+    end.
+
+  Definition hlle_model_sf (fz : F -> bool) (shipped : bool) (N k d : nat) (nbr : nat -> nat -> nat)
+             (V prev : nat -> mat) : result (list triplet) :=
+    match hlle_all_locals fz shipped k d V prev N with
+    | Ok Ps => Ok (hlle_triplets (seq 0 N) k nbr (fun i => mof (nth i Ps [])))
+    | OOB s i n => OOB s i n
+    | SolveFail i => SolveFail i
+    end.
 
   (* ================= eigendecomposition_impl_dense, SmallestEigenvalues ================= *)
   (* dense_wm = wm; dense_wm += dense_wm^T; dense_wm /= 2  ==  Mat_Core.sym_avg;
@@ -383,8 +420,8 @@ Section LleModel.
 
   (* V i = the k x d tangent coordinates of sample i (eigenvectors().rightCols(d), or any basis
      of the same space on the exact stream) *)
-  Definition hlle_run_sf (shipped : bool) (N d : nat) (L : list (list nat)) (V : nat -> mat)
-    : result (list triplet) :=
+  Definition hlle_run_sf (fz : F -> bool) (shipped : bool) (N d : nat) (L : list (list nat))
+             (V : nat -> mat) : result (list triplet) :=
     match k_of L with
     | None => OOB site_neighbors0 0 0
     | Some k =>
@@ -394,7 +431,7 @@ Section LleModel.
             if Nat.leb d k then
               match hlle_first_oob shipped d with
               | Some c => OOB site_hlle_col c (hlle_ncols d)
-              | None => Ok (hlle_model_sf shipped N k d (nbrs_of L) V (fun _ _ _ => 0))
+              | None => hlle_model_sf fz shipped N k d (nbrs_of L) V (fun _ _ _ => 0)
               end
             else OOB site_right_cols d k
         end
